@@ -267,7 +267,7 @@ func zeta_imp(s, sc float64) float64 {
     if math.Floor(sc/2.0) == sc/2.0 {
       result = 0.0
     } else {
-      if s > float64(factorialMax) {
+      if s > float64(MaxFactorial) {
         mult   := SinPi(0.5*sc)*2.0*zeta_imp(s, sc)
         v, _   := math.Lgamma(s)
         result  = v
